@@ -94,7 +94,7 @@ def run(ctx):
     cases = [(pre, ents, off, "corpus") for pre, ents, off in CORPUS]
     if ctx.replay_cases:
         cases = [(c["pre"], c["entries"], c["offset"], "replay") for c in ctx.replay_cases if "entries" in c] + cases
-    for _ in range(ctx.n(100, 2000)):
+    for _ in range(ctx.n(90, 2000)):
         pre = gen_pre(rng, size=rng.randint(1, 6))
         ents = gen_entries(rng, pre, wellformed=rng.random() < 0.9)[: rng.randint(1, 5)]
         if ents:
